@@ -165,12 +165,18 @@ func drawTunCfg(e *Env) tunCfg {
 		} else if shape >= 5 {
 			c.Senders = 1 + e.Choose("cfg.senders8", 8)
 			c.Adversary = 2 + e.Choose("cfg.adv", 12)
+			if shape >= 7 {
+				c.Director = 1 + e.Choose("cfg.dir03", 3)
+			}
 		}
 		c.TCP = shape == 1 && e.Choose("cfg.tcp", 2) == 1
 	case "C04", "C17":
 		c.Senders = e.Choose("cfg.senders2", 2)
 		c.Inbound = 2 + e.Choose("cfg.inbound64", 63)
 		c.Window = []int{1, 2, 4, 8, 64}[e.Choose("cfg.window", 5)]
+		if p == "C04" && shape >= 3 && shape != 9 {
+			c.WriteErr = []int{0, 0, 50, 200}[e.Choose("cfg.werr04", 4)] // an acknowledgement that cannot be sent
+		}
 		if e.Choose("cfg.starve", 3) == 0 {
 			c.Starve = []int{100, 300, 700}[e.Choose("cfg.starvep", 3)]
 			c.StarveMax = e.PickDur("cfg.starvemax", time.Millisecond, 20*time.Millisecond, 2*time.Second)
@@ -490,6 +496,27 @@ func (r *tunRun) doClose() {
 	r.tun.Close()
 	cc.Ret = r.e.Stamp()
 	cc.Done = true
+	// Whichever Close call returns, from that moment Inbound is closed (what is still parked is
+	// gone with it) and Send fails at once.
+	in := r.tun.Inbound()
+	for i := 0; i < 1000; i++ {
+		m, ok, got := tryRecv("post-close-probe", in)
+		if !got {
+			r.e.Violate("C10", "inbound-open-after-close", "a Close call returned at %v but Inbound is neither closed nor readable: a range over it would block", cc.Ret.T)
+			break
+		}
+		if !ok {
+			break
+		}
+		d := Delivery{ID: msgID(m), At: r.e.Stamp()}
+		r.h.Deliv = append(r.h.Deliv, d)
+	}
+	call := r.doSend(lateSender)
+	if call.Done && call.OK {
+		r.e.Violate("C10", "send-ok-after-close", "Send invoked right after a Close call had returned (at %v) reported success", cc.Ret.T)
+	} else if call.Done && call.Ret.T-call.Inv.T > r.e.Eps() {
+		r.e.Violate("C10", "send-slow-after-close", "Send invoked right after a Close call had returned took %v to fail", call.Ret.T-call.Inv.T)
+	}
 }
 
 func (r *tunRun) reader() {
@@ -559,7 +586,11 @@ func (r *tunRun) adversary() {
 		}
 		st := uint8(0)
 		if e.Choose("flt.advst", 3) == 0 {
-			st = uint8(1 + e.Choose("flt.advstv", 255))
+			// the status codes the library knows by name, and arbitrary others
+			st = []uint8{0x24, 0x25, 0x21, 0x22, 0x23, 0x26, 0x27, 0x29, 0x01, 0x02, 0x04, 0}[e.Choose("flt.advstk", 12)]
+			if st == 0 {
+				st = uint8(1 + e.Choose("flt.advstv", 255))
+			}
 		}
 		kinds := []string{"ack", "ack", "ack", "tunreq", "tunreq", "statres", "discreq-foreign", "discres-foreign", "connres", "unknown"}
 		switch k := kinds[e.Choose("flt.advkind", len(kinds))]; k {
@@ -630,7 +661,10 @@ func (r *tunRun) director() {
 		if r.closed {
 			return
 		}
-		switch e.Choose("flt.dirkind", 9) {
+		switch e.Choose("flt.dirkind", 10) {
+		case 9: // the gateway rejects the next tunnelling request with an error status
+			g.AckStatus = []uint8{0x24, 0x25, 0x21, 0x29, 0x04, uint8(1 + e.Choose("flt.ackst", 255))}[e.Choose("flt.ackstk", 6)]
+			g.AckStatusOnce = true
 		case 0: // silence for a while
 			g.Silent = true
 			e.Fault("gateway-silent")
